@@ -271,6 +271,11 @@ if __name__ == "__main__":
     sys.modules.setdefault("check", sys.modules["__main__"])
     try:
         rc = main(sys.argv[1:])
+        try:
+            import pgp
+            pgp.sweep_stale_homes()
+        except Exception:
+            pass
     except HarnessError as e:
         out("HARNESS-ERROR %s" % (str(e)[:3000],))
         rc = EXIT_HARNESS
